@@ -340,6 +340,9 @@ namespace xtl
         friend class xdynamic_bitset_base<B>;
     };
 
+    template <class B>
+    void swap(xbitset_reference<B, false> lhs, xbitset_reference<B, false> rhs) noexcept;
+
     /********************
      * xbitset_iterator *
      ********************/
@@ -1268,6 +1271,15 @@ namespace xtl
     {
         m_block ^= m_mask;
         return *this;
+    }
+
+    template <class B>
+    inline void swap(xbitset_reference<B, false> lhs, xbitset_reference<B, false> rhs) noexcept
+    {
+        // exchanges the designated bits (a generic swap would copy the reference, not the bit)
+        bool tmp = lhs;
+        lhs = static_cast<bool>(rhs);
+        rhs = tmp;
     }
 
     template <class B, bool C>
